@@ -74,7 +74,7 @@ else:
             if not os.path.exists("/verif/lean/LivesimVerif/Props/%s.lean" % pr):
                 results[pr] = "no check yet"
                 continue
-            c = subprocess.run(["./check", pr, "--tier", "quick"], cwd="/verif", capture_output=True, text=True)
+            c = subprocess.run(["./check", pr, "--tier", "quick"], cwd="/verif", capture_output=True, text=True, env=dict(os.environ, VERIF_EVIDENCE_DIR="/verif/.work/seed-evidence"))
             vio = [l for l in c.stdout.splitlines() if l.startswith("VIOLATION")]
             results[pr] = {"exit": c.returncode, "violation_lines": vio[:3], "summary": c.stdout.strip().splitlines()[-1:] }
             print(pr, "exit", c.returncode, vio[:1])
